@@ -156,6 +156,10 @@ fn one_run(st: &mut Stats, c: &Case, pseed: u64, sigs: &mut HashSet<u64>, perms:
     let s = s2d(&c.start);
     let e = from_ce(ce(s) + c.days as i32 - 1);
     let dr = DateRange::from(s..=e);
+    if pseed % 4 == 1 && c.days > 0 {
+        // typical flow: a single-date call (with explicit weather) for the first date, then the range, on one thread
+        let _ = catch_unwind(AssertUnwindSafe(|| prayer_times_dt(&p, l, s, Some(weather(870.0, -25.0)))));
+    }
     let expected: RangeMap = prayer_times_dt_rng(&p, l, &dr);
     st.evaluations += 1;
     st.tick(); // progress per run (a case may hold dozens of repetitions of a 6000-day range)
@@ -569,6 +573,29 @@ pub fn run(ctx: &Ctx, st: &mut Stats) {
         st.decided += 1;
         st.count("runs.concurrent_callers_groups");
         st.nontrivial_key(hash64(&format!("cc{:?}{}", (callers, w, k), ctx.shard)));
+    }
+    // seconds-long injected delays (a worker that is late by more than any sane timeout) on one shard in four
+    if ctx.shard % 4 == 0 || ctx.thorough {
+        for k in 0..ctx.pick(1, 3) {
+            if st.extra.contains_key("aborted_after_deadlock") {
+                break;
+            }
+            let w = r.int(2, 3) as usize;
+            let c = Case {
+                site: site(&mut r),
+                method: r.int(1, 8) as usize,
+                default_policy: false,
+                start: d2s(from_ce(r.int(day_lo() as i64, day_hi() as i64 - 6100) as i32)),
+                days: r.int(w as i64, 2 * w as i64),
+                workers: w,
+                threshold: 0,
+                pseed: ctx.seed * 17_000_023 + ctx.shard * 100_043 + k * 47 + 1,
+                max_sleep_us: 7_000_000,
+                repeats: 1,
+            };
+            check(ctx, st, &c);
+            st.count("runs.with_seconds_long_injected_delays(<=7s)");
+        }
     }
     // long injected delays (tens of ms) on small configurations: timing-based termination conditions
     // (recv_timeout, polling collectors, "wait a bit then stop") only show when a worker is late
